@@ -366,6 +366,71 @@ pub fn exec_worker(ctx: &mut Ctx, prop: &str) {
     }
     ctx.flush();
 
+    // ---------------- W1: generated programs (the same generator as C01).
+    let n_gen: u64 = tier.pick(120, 2000);
+    let gen_ids: Vec<u64> = (0..n_gen).collect();
+    let results: Vec<(ShardResult, HashSet<String>)> = gen_ids
+        .par_iter()
+        .map(|i| {
+            let mut acc = ShardResult::default();
+            let mut libs = HashSet::new();
+            let r = guarded(|| {
+                let mut local = ShardResult::default();
+                let mut llibs = HashSet::new();
+                let mut rng = Rng::derive(seed, &[1, *i]);
+                let (program, _) = crate::pgen::generate(&mut rng);
+                let src = crate::pgen::render_program(&program);
+                let cfg = if i % 3 == 2 { Config { linear: false, ..Config::DEFAULT } } else { Config::DEFAULT };
+                let Ok(sierra) = compile_cached(&cfg, false, "test", &src) else {
+                    local.inconclusive("generated program rejected by the front end");
+                    return (local, llibs);
+                };
+                let in_domain = program_libfuncs(&sierra).iter().all(|l| audited.contains(l));
+                let Ok(prog) = Prog::new(sierra, Some(exec::metadata_config(cfg.linear, Default::default()))) else {
+                    local.inconclusive("generated program does not build under this solver");
+                    return (local, llibs);
+                };
+                let Ok(func) = prog.runner.find_function("::main") else { return (local, llibs) };
+                let func = func.clone();
+                let mut ap = ApStats::default();
+                for k in 0..6u64 {
+                    let mut arng = Rng::derive(seed, &[101, *i, k]);
+                    let args = crate::pgen::main_args(&program, &mut arng);
+                    let budgets = gas_budgets(&prog, &func, &mut arng);
+                    let gas = budgets[(k as usize) % budgets.len()];
+                    let case_id = format!("generated program #{i} main(#{k}) gas={gas:?} cfg={}", cfg.name());
+                    let replay = json!({"kind": "generated", "idx": i, "seed": seed, "k": k, "cfg": cfg, "source": src});
+                    local.eval();
+                    let rec = exec::run(&prog, &func, crate::pgen::args_to_runner(&program, &args), gas);
+                    if matches!(rec.outcome, Outcome::NotEnoughGas | Outcome::Setup(_)) {
+                        continue;
+                    }
+                    exec::executed_libfuncs(&prog, &rec, &mut llibs);
+                    monitor_run(&mut local, prop, &prog, &func, &rec, &case_id, in_domain, &mut ap, &replay);
+                    if rec.trace.len() >= 3 {
+                        local.nontrivial(fnv_str(&case_id));
+                    }
+                }
+                local.count("generated_programs_run", 1);
+                local.count("call_instances_checked", ap.call_instances_checked);
+                (local, llibs)
+            });
+            match r {
+                Ok((l, ll)) => {
+                    acc.merge(l);
+                    libs = ll;
+                }
+                Err((loc, msg)) => acc.inconclusive(&format!("harness panic: {}", panic_sig(&loc, &msg))),
+            }
+            (acc, libs)
+        })
+        .collect();
+    for (r, l) in results {
+        ctx.absorb(r);
+        libs_seen.extend(l);
+    }
+    ctx.flush();
+
     // ---------------- W2: corelib tests.
     let w2_cfgs: Vec<Config> = match tier {
         Tier::Quick => vec![Config::DEFAULT],
@@ -488,6 +553,26 @@ pub fn exec_replay(prop: &str, case: &serde_json::Value) -> Result<Option<String
             let in_domain = libs.iter().all(|l| audited.contains(l));
             let mut ap = ApStats::default();
             monitor_run(&mut acc, prop, &suite.prog, &func, &rec, name, in_domain, &mut ap, case);
+        }
+        "generated" => {
+            let src = case["source"].as_str().ok_or("no source")?;
+            let idx = case["idx"].as_u64().ok_or("no idx")?;
+            let seed = case["seed"].as_u64().unwrap_or(1);
+            let mut rng = Rng::derive(seed, &[1, idx]);
+            let (program, _) = crate::pgen::generate(&mut rng);
+            let sierra = compile_cached(&cfg, false, "test", src)?;
+            let in_domain = program_libfuncs(&sierra).iter().all(|l| audited.contains(l));
+            let prog = Prog::new(sierra, Some(exec::metadata_config(cfg.linear, Default::default())))?;
+            let func = prog.runner.find_function("::main").map_err(|e| e.to_string())?.clone();
+            let mut ap = ApStats::default();
+            for k in 0..6u64 {
+                let mut arng = Rng::derive(seed, &[101, idx, k]);
+                let args = crate::pgen::main_args(&program, &mut arng);
+                let budgets = gas_budgets(&prog, &func, &mut arng);
+                let gas = budgets[(k as usize) % budgets.len()];
+                let rec = exec::run(&prog, &func, crate::pgen::args_to_runner(&program, &args), gas);
+                monitor_run(&mut acc, prop, &prog, &func, &rec, "generated", in_domain, &mut ap, case);
+            }
         }
         _ => return Err(format!("unknown replay kind {kind}")),
     }
